@@ -348,6 +348,20 @@ SPEC = r"""
     ensures
         cmp_of(r) == veq(*lhs, *rhs), // [C10:structural_equality_depends_only_on_shape_and_contents_and_a_type_mismatch_inside_is_an_error_naming_both_types_in_operand_order]
 """
+OP_TEXT = r"""
+// the source symbol of every binary operator (the property's operator list)
+pub open spec fn op_text(op: BinaryOp) -> Seq<char> {
+    match op {
+        BinaryOp::Sum => "+"@, BinaryOp::Sub => "-"@, BinaryOp::Mul => "*"@, BinaryOp::Div => "/"@, BinaryOp::Mod => "%"@,
+        BinaryOp::And => "&&"@, BinaryOp::Or => "||"@,
+        BinaryOp::Eq => "=="@, BinaryOp::Ne => "!="@, BinaryOp::Gt => ">"@, BinaryOp::Gte => ">="@, BinaryOp::Lt => "<"@, BinaryOp::Lte => "<="@,
+        BinaryOp::RefEq => "==="@, BinaryOp::RefNe => "!=="@,
+    }
+}
+"""
+SPEC_OP = r"""
+    ensures r@ == op_text(*op), // [C16:a_diagnostic_names_the_operator_by_its_source_symbol]
+"""
 SPEC_RT = r"""
     ensures r@ == type_name(*v), // [C16:type_names_in_diagnostics_are_the_documented_ones]
 """
@@ -373,6 +387,8 @@ def build(read):
     b = Built()
     f = parts.copy_item(b, read, "src/eval/mod.rs", "fn", "eq")
     rt = parts.copy_item(b, read, "src/eval/error.rs", "fn", "render_type")
+    ops = parts.copy_item(b, read, "src/eval/error.rs", "fn", "op_symbol")
+    ops = extract.annotate_fn(ops, spec=SPEC_OP)
 
     f = desugar_enumerate_expr(f, "eq")
     b.edits.append("D5: eq: `for (i, x) in lock_deref!(xs).iter().enumerate()` -> index loop")
@@ -415,7 +431,8 @@ def build(read):
         parts.OPAQUE_SCOPES,
         parts.ast_text(b, read), parts.value_items(b, read), parts.value_model(True),
         MODEL,
-        "pub mod error {\n    use super::*;\n// ---- verbatim from src/eval/error.rs\n" + rt + "\n}",
+        OP_TEXT,
+        "pub mod error {\n    use super::*;\n// ---- verbatim from src/eval/error.rs\n" + rt + "\n" + ops + "\n}",
         "// ---- function under contract (verbatim body; contract text inserted at anchors)",
         f,
         LAWS,
@@ -442,3 +459,5 @@ def replays(failed):
     yield ("type mismatch other order", "print([\"a\"] == [1])\n", exp(err="'string' and 'int'"))
     yield ("!= is the negation", "print([1, 2] != [1, 2])\nprint([1, 2] != [1, 3])\n", exp("false\ntrue\n"))
     yield ("different lengths", "print([1] == [1, 2])\n", exp("false\n"))
+    yield ("a type error names the operator by its symbol", "print([] !== 1)\n", exp(err="can't apply '!==' to 'list' and 'int'"))
+    yield ("a type error names the operator by its symbol (===)", "print(1 === 1)\n", exp(err="can't apply '===' to 'int' and 'int'"))
